@@ -118,6 +118,16 @@ def main() -> int:
             print(f"VIOLATION property={prop} replay={path} no-failing-input-found")
             nviol += 1
         exit_code = 1
+    try:
+        cs = engine.coverage_summary()
+        if cs["executed"]:
+            run["implementation_lines_executed"] = {
+                "executed": cs["executed"], "executable": cs["executable"],
+                "per_file": {k: f"{v['executed']}/{v['executable']}" for k, v in cs["files"].items() if v["executable"]},
+                "not_executed": {k: v["not_executed"] for k, v in cs["files"].items() if v["not_executed"]},
+                "note": "lines of /repo/docx2python executed by this check's correspondence and oracle runs (sys.monitoring)"}
+    except Exception:  # noqa: BLE001
+        pass
     run.pop("violations", None)
     run.pop("corr_broken", None)
     run.pop("known", None)
